@@ -439,3 +439,14 @@ Lemma c04_nonvacuous_l :
   mono 5 [(true, 7, 5); (true, 7, 9)] /\
   pvs_in (-32768) 32767 [(true, true, 3); (false, false, 3)].
 Proof. repeat split; try (repeat constructor; cbn; lia); vm_compute; reflexivity. Qed.
+
+(* ---- CTUD against the IEC wording ---- *)
+Lemma ctud_refines_iec_l lo hi : forall tr cv pcu pcd,
+  run (ctud_stepI lo hi) {| ctud_cv := cv; ctud_pcu := pcu; ctud_pcd := pcd |} tr = ctud_spec_run lo hi cv pcu pcd tr.
+Proof.
+  induction tr as [|[[[[cu cd] r] ld] pv] tr IH]; intros cv pcu pcd; [reflexivity|].
+  cbn [run ctud_stepI ctud_step ctud_spec_run ctud_cv ctud_pcu ctud_pcd].
+  destruct r; [cbn; f_equal; apply IH|]. destruct ld; [cbn; f_equal; apply IH|].
+  destruct (cu && negb pcu) eqn:Eu, (cd && negb pcd) eqn:Ed; cbn [andb negb];
+    try (destruct (cv <? hi); cbn; f_equal; apply IH); try (destruct (lo <? cv); cbn; f_equal; apply IH); cbn; f_equal; apply IH.
+Qed.
